@@ -26,6 +26,20 @@ def cval(p):
     return uf("Cval", PT, z3.RealSort())(p)
 
 
+def retval(k):
+    """Value returned by the k-th call of the user target (1-based), as a global ghost sequence."""
+    return uf("RetVal", z3.IntSort(), z3.RealSort())(k)
+
+
+def retsd(k):
+    return uf("RetSD", z3.IntSort(), z3.RealSort())(k)
+
+
+def argpt(k):
+    """Argument (original coordinates) of the k-th call of the user target."""
+    return uf("ArgPt", z3.IntSort(), PT)(k)
+
+
 def feasx(p):
     """User constraint reports no violation at original-space point p (True when no constraint is given)."""
     return z3.Or(z3.Bool("ghost.cons_none"), cval(p) <= 0)
@@ -93,7 +107,10 @@ def model_target(eng, fv, args, kw, st, e):
     eng.effect("calls_target", e)
     callsite_obligations(eng, ".fun", x, st, e)
     n = eng.lookup(st, "ghost.n_calls")
-    st.env["ghost.n_calls"] = Val.of_num(N(n.get_num().r + 1))
+    k1 = z3.simplify(n.get_num().r + 1)
+    st.env["ghost.n_calls"] = Val.of_num(N(k1))
+    if a is not None and a.ndim == 1:
+        ctx().add_fact(z3.Implies(st.pc, argpt(k1) == a.row(None)))
     # the k-th call may raise any exception (the fault the user code decides on)
     cond = z3.Bool(ctx().fresh("target_raises"))
     xs = st.copy()
@@ -106,7 +123,10 @@ def model_target(eng, fv, args, kw, st, e):
     eng.push_exit(ex)
     st.pc = z3.And(st.pc, z3.Not(cond))
     nm = ctx().fresh("target_ret")
-    return Val(poly=nm, ref="$" + nm)
+    r = Val(poly=nm, ref="$" + nm)
+    r.py = ("target_ret", k1)
+    r.lazy = N(retval(k1))
+    return r
 
 
 MODELS = {".ginv": model_ginv, ".g": model_g, "non_box_cons": model_cons, ".fun": model_target}
